@@ -4,7 +4,6 @@ import json
 
 NA_FIXED = {
     'C03': 'bit-exact numeric equality with an external C++ reference over 2^80 inputs: a value property; no static shape decides it (DESIGN.md section 6). The mode->function dispatch is decided under C02.',
-    'C08': 'agreement of three run-time index computations (tile lookup, tilemap rasteriser, tileset slicing) incl. floor/ceil division on negative offsets: a value relation, not a shape (DESIGN.md section 6)',
     'C18': 'pixel-exact output of extrude_border and tie/range rules of PaletteMapper: value-level; no structural necessary condition short of evaluating the arithmetic (DESIGN.md section 6)',
 }
 PENDING = 'check under construction (DESIGN.md Appendix C); not claimed yet'
@@ -17,6 +16,13 @@ CLAIMED = {
         note='Trusted: rustc MIR construction, the asemir driver, std Vec/Index semantics. Parameter positions of the public API (cel(frame, layer), Frame::layer(layer), Layer::frame(frame), tilemap(layer, frame)) are the oracle.',
         technique='static analysis: MIR origin/provenance dataflow + dominance (custom rustc_private driver)'),
 }
+
+CLAIMED['C08'] = dict(
+    category='other',
+    text='Static shape analysis over rustc MIR of the five places where tile geometry is computed, with index arithmetic compared as polynomials over atomic terms (so association, commutation, casts and temporaries are irrelevant; only which quantity multiplies which, and which axis meets which dimension, matters). Decided for all inputs: Tilemap::tile reads tiles[(y-oy)*W + (x-ox)] exactly inside 0<=x-ox<W, 0<=y-oy<H and otherwise returns the static EMPTY_TILE whose id is 0; the logical size is the per-axis rounded-up quotient of the canvas and the handle\'s own tileset; tile offsets are the cel position divided per axis by the tile size; tile_image(i) is the i-th block of tw*th pixels as a tw x th image and Tileset::image is all blocks in stored order with height th*count; the tilemap rasteriser blends pixel py*tw+px of tile_slice(tile(tx,ty).id) onto (cel.x+tx*tw+px, cel.y+ty*th+py) with the layer x cel opacity, TilemapData::tile reads tiles[y*W+x], tile_slice cuts pixels[ppt*id .. +ppt], Tilemap::image is its cel\'s image. NOT decided (and said so in the evidence): numerical agreement of lookup and image when the cel offset is not a multiple of the tile size (truncating division on negative offsets), and pixel values.',
+    design_ref='DESIGN.md section 13 (supersedes the not-applicable entry of section 4/6 for C08)',
+    note='Trusted: rustc MIR, the driver, the row-major contract of image::ImageBuffer::from_raw, Iterator::skip/take and slice indexing. Width safety of the arithmetic is C04/C05/C16, not this check. Accepted spellings of the rounded-up quotient: (p + t - 1) / t in any association, or p.div_ceil(t).',
+    technique='static analysis: MIR provenance terms normalised to polynomials over atoms, guard/dominance inspection (custom rustc_private driver)')
 
 CLAIMED['C09'] = dict(
     category='other',
